@@ -195,6 +195,9 @@ def check_fraction(kw, v, text):
         num, den = (int(m.group(3)), int(m.group(4))) if m.group(3) is not None else (0, 1)
     if den == 0:
         raise Bad("unparseable", f"fraction text {text!r} has a zero denominator")
+    if m.group(3) is not None and not (0 < num < den):
+        # in mixed notation the fraction is a proper one: a part that rounds up to a whole is carried into the integer digits
+        raise Bad("improper", f"fraction text {text!r}: {num}/{den} next to a whole number is not a proper fraction")
     P = Fraction(whole) + Fraction(num, den)
     if neg:
         P = -P
